@@ -139,6 +139,16 @@ def hand_items(ids):
                   Field("m", T.Map("btree", "String", T.It(plain)), [[("default", None)]])], [[("deny", None)]])
     S("HEmpty", [])
     S("HEmptyDeny", [], [[("deny", None)]])
+    # two fields claiming one effective key (accepted by the derive: the first claimant is filled, the other never is);
+    # the fields declared after them must still be read from their own keys
+    S("HCollide", [Field("a", I("u8"), [[("rename", "b")]]), Field("b", I("u8"), [[("default", None)]]), Field("c", I("u8"), [[("default", None)]]),
+                   Field("d", T.String)])
+    S("HCollideSkip", [Field("x", I("u8"), [[("rename", "y")]]), Field("s", I("u8"), [[("skip",)]]), Field("y", I("u8"), [[("default", None)]]),
+                       Field("z", T.String), Field("w", T.Bool, [[("default", None)]])], [[("deny", None)]])
+    E("HCollideVariant", [Variant("V", [Field("foo_bar", I("u8")), Field("fooBar", I("u8"), [[("default", None)]]), Field("tail_end", T.Bool),
+                                        Field("last", T.Option(I("u8")))], [[("rename_all", "camelCase")]]),
+                          Variant("W", [Field("foo_bar", I("u8")), Field("fooBar", T.Bool)])],
+      [[("tag", "t"), ("rename_all", "lowercase")]])
     # generic derive inputs (the impl header the derive assembles: parameters, their bounds, a where clause, the added
     # `T: Deserr<E>` predicates); the model is given the instance the catalogue uses
     TO = "crate::out::ToOut"
@@ -654,7 +664,7 @@ def gen_valid(t, rng, depth=0):
     if k in ("box", "w"): return gen_valid(t[1], rng, depth + 1)
     if k == "cs":
         n = rng.choice([0, 1, 2, 3])
-        return ",".join(gen_key(t[1], rng) if t[1] != "String" else rng.choice(["a", "bc", "d e"]) for _ in range(n))
+        return ",".join(gen_key(t[1], rng) if t[1] != "String" else rng.choice(["a", "bc", "d e", " ", "\t", " x ", "\u00a0"]) for _ in range(n))
     if k == "item":
         return gen_item_valid(t[1], rng, depth)
     raise ValueError(t)
@@ -750,7 +760,7 @@ def mutate_once(p, rng, extra_keys=()):
     if isinstance(cur, dict) and ("i" in cur or "n" in cur):
         ops += ["range", "range"]
     if isinstance(cur, str):
-        ops += ["str", "str"]
+        ops += ["str", "str", "ws"]
     op = rng.choice(ops)
     if op == "wrong":
         return set_at(p, path, copy.deepcopy(rng.choice(WRONG)))
@@ -760,6 +770,11 @@ def mutate_once(p, rng, extra_keys=()):
         return set_at(p, path, wi(rng.choice([255, 256, 65536, 2**31, 2**32, 2**63, 2**64 - 1, -1, -129, -32769, -2**31 - 1, -2**63, 0, 127, 128, 1000, 3, 7])))
     if op == "str":
         return set_at(p, path, rng.choice(["", "ab", "!x", "é", "a,b,,c", ",1", "1,,2", ",", "1,x", "256", "Alpha", "alpha", "abé", "ab\U0001f980", "\u0008\u000c\u007f", near_miss(cur, rng)]))
+    if op == "ws":
+        # blank is not empty: whitespace-only segments of comma-separated lists, padded elements, padded scalars
+        w = rng.choice([" ", "  ", "\t", "\n", "\u00a0", "\u3000", " \t "])
+        return set_at(p, path, rng.choice([w, cur + "," + w, w + "," + cur, cur.replace(",", "," + w + ",", 1), cur + "," + w + "," + cur, w + cur, cur + w,
+                                           cur.replace(",", w + ",", 1), cur.replace(",", "," + w, 1), "1," + w + ",2", "a," + w + ",b", "true," + w]))
     new = copy.deepcopy(cur)
     if op == "drop_elem" and new:
         del new[rng.randrange(len(new))]
